@@ -252,6 +252,20 @@ def run(index, rep, tier):
     with rep.section("R09.11"):
         from . import c13
         rep.floor("R09.11", "functions switching hyphens to tokens", 1, c13.mode_pairing_rule(index, rep, "R09.11"))
+    rep.rule("R09.12", "SETS blocks name their matrix: the reader refuses a CHARSET without `LINK CHARACTERS` once several matrices have been read, so the writer's SETS block carries that link (or is only written for a lone matrix)")
+    with rep.section("R09.12"):
+        gcm = index.function(XR + "._get_char_matrix")
+        needs_link = any(isinstance(r, ast.Raise) and "LinkRequiredError" in norm(r.exc) for r in ast.walk(gcm.node) if isinstance(r, ast.Raise) and r.exc is not None)
+        pcs = index.function(XR + "._parse_charset_statement")
+        passes_link = any(call_name(c) == "_get_char_matrix" and (get_kwarg(c, "title") is not None or c.args) for c in calls_in(pcs.node))
+        wcs = index.function(XW + "._write_character_subsets")
+        consts = [n.value for n in ast.walk(wcs.node) if isinstance(n, ast.Constant) and isinstance(n.value, str)]
+        writes_sets = any("BEGIN SETS" in c.upper() for c in consts)
+        writes_link = any(re.search(r"LINK\s+CHARACTERS", c, re.I) for c in consts) or any(call_name(c) in ("_write_link_to_char_block", "_write_link_to_characters_block") for c in calls_in(wcs.node))
+        if not (needs_link and passes_link and writes_sets):
+            raise AnalysisError("R09.12: reader link requirement / writer SETS block not recognised (needs_link=%s passes_link=%s writes_sets=%s)" % (needs_link, passes_link, writes_sets))
+        rep.check(writes_link, "R09.12", wcs.qualname, "SETS block written without LINK CHARACTERS", fn_where(wcs), "the SETS block names the matrix its character sets belong to",
+                  "NexusWriter._write_character_subsets writes `BEGIN SETS; charset ...` without a `LINK CHARACTERS = <title>` statement, while NexusReader._get_char_matrix raises LinkRequiredError for an unlinked CHARSET as soon as more than one matrix has been read: a data set with two matrices of which the second has character subsets (e.g. a concatenated matrix) cannot be read back from the NEXUS it was written to")
     rep.rule("R09.7", "per-matrix parser state: every accumulator field the NeXML characters parser fills while reading one matrix is re-initialised at the start of the next (the parser object is reused across matrices)")
     nacc = unit_state_rule(index, rep, "R09.7", NXR + "._NexmlCharBlockParser", "parse_char_matrix", NXR + ".NexmlReader._parse_char_matrices")
     rep.floor("R09.7", "accumulator fields of the NeXML characters parser", 5, nacc)
